@@ -339,11 +339,11 @@ class ModelsWorld(World):
                 if r.tname == "nonlin" and rng.random() < 0.3:
                     # a documented keyword of the nonlinear steady-state solver; tight budgets make the call fail, legally
                     m["settings"] = {"max_iterations": rng.choice([2, 3, 200])}
-            elif x < 0.9:
+            elif x < 0.88:
                 m = {"k": "solve"}
-            elif x < 0.94:
+            elif x < 0.91:
                 m = {"k": "describe", "s": rng.choice(["", "model A", "renamed"])}
-            elif x < 0.985 and r.tname == "nonlin":
+            elif x < 0.95 and r.tname == "nonlin":
                 m = {"k": "change_logly", "logly": rng.random() < 0.5, "names": rng.sample(["y", "k", "c", "a"], rng.randint(1, 3))}
             else:
                 if not TEMPLATES[r.tname]["shocks"]:
